@@ -329,6 +329,10 @@ class WorkerPool:
                         running_maps = [j for j in self._cache.copy().values() if j.type == JobType.MAP]
                         if running_maps:
                             job, job_id = running_maps[0], running_maps[0].job_id
+                        elif self._map_running:
+                            # A map call has just started and hasn't registered its job yet (or is wrapping up): it has
+                            # already passed the check for idle worker deaths, so fail it through the main process
+                            job, job_id = self._cache[MAIN_PROCESS], MAIN_PROCESS
                         else:
                             self._idle_worker_death = err
                             self._worker_comms.reinit_comms_for_worker(worker_id)
